@@ -120,15 +120,19 @@ Example C14_example :
   length (q_clauses (w_join_kind (current true false))) = 2%nat.
 Proof. vm_compute. split; reflexivity. Qed.
 
-(* ---- refuted: clause order matters to the planner outside the supported fragment: the same two clauses give an error in
-   one order (fully specified clause after a bound one) and the solution in the other *)
-Theorem C14_clause_order_refuted :
-  exists q q', Permutation (q_clauses q) (q_clauses q') /\ q_graphs q = q_graphs q' /\ q_cfg q = current true false /\
-               q_cfg q' = current true false /\ run_model q = Err EAppend /\ exists res, run_model q' = Ok res /\ snd res <> [].
+(* ---- repaired (F26): clause order mattered - the same two clauses gave an error in one order (fully specified clause after a
+   bound one) and the solution in the other; now both orders give the solution *)
+Theorem C14_clause_order_original_refuted :
+  exists q q' : cfg -> qcase,
+    (forall e, Permutation (q_clauses (q e)) (q_clauses (q' e)) /\ q_graphs (q e) = q_graphs (q' e)) /\
+    run_model (q (mkCfg true false true true true true true true false false)) = Err EAppend /\
+    (exists res, run_model (q' (mkCfg true false true true true true true true false false)) = Ok res /\ snd res <> []) /\
+    (exists res, run_model (q (current true false)) = Ok res /\ run_model (q' (current true false)) = Ok res /\ snd res <> []).
 Proof.
-  exists (w_spec3_after_bound (current true false)).
-  exists (let q := w_spec3_after_bound (current true false) in
-          mkCase (q_cfg q) (q_graphs q) (rev (q_clauses q)) (q_lo q) (q_outs q) (q_projs q)).
-  split; [apply Permutation_rev|]. vm_compute. repeat split. eexists. split; [reflexivity|discriminate].
+  exists w_spec3_after_bound.
+  exists (fun e => let q := w_spec3_after_bound e in mkCase (q_cfg q) (q_graphs q) (rev (q_clauses q)) (q_lo q) (q_outs q) (q_projs q)).
+  split; [intros e; split; [apply Permutation_rev|reflexivity]|].
+  vm_compute. split; [reflexivity|]. split; [eexists; split; [reflexivity|discriminate]|].
+  eexists. split; [reflexivity|]. split; [reflexivity|discriminate].
 Qed.
-Print Assumptions C14_clause_order_refuted.
+Print Assumptions C14_clause_order_original_refuted.
